@@ -137,6 +137,10 @@ CASES = {
     "solve_tri_unit": lambda a, b, c: torch.linalg.solve_triangular(torch.triu(SQ_(a)), a[:, :2], upper=True, unitriangular=True),
     "conv1x1": lambda a, b, c: F.conv2d(c.reshape(1, 2, 3, 4), SQ_(a)[:2, :2].reshape(2, 2, 1, 1)),
     "batch_norm_eval": lambda a, b, c: F.batch_norm(a, V_(a), POS_(a)[0], weight=b[0], bias=b[1], training=False, eps=0.5),
+    "layer_norm": lambda a, b, c: F.layer_norm(a, (4,), weight=b[0], bias=b[1], eps=0.5), "layer_norm_2d": lambda a, b, c: F.layer_norm(c, (3, 4), eps=0.25),
+    "searchsorted": lambda a, b, c: torch.searchsorted(torch.tensor([-1.0, 0.0, 0.5, 2.0], dtype=torch.float64), a).double(),
+    "searchsorted_right_rows": lambda a, b, c: torch.searchsorted(a.sort(dim=1)[0] if not isinstance(a, Sym) else sym(A.sort(dim=1)[0]), b, right=True).double(),
+    "argmin": lambda a, b, c: torch.argmin(a + torch.arange(12).reshape(3, 4) * 0.001).double(), "argmax_dim": lambda a, b, c: (a + torch.arange(12).reshape(3, 4) * 0.001).argmax(dim=1).double(),
     "batch_norm_train": lambda a, b, c: F.batch_norm(a, None, None, training=True, eps=0.5),
 }
 _cur = {}
